@@ -70,7 +70,7 @@ def run(rep: Report, prog: Program, tier: str) -> None:
     rep.rule("C16-VP8", "descriptor writer/reader agreement over the flag space", min_instances=100)
     payload = b"\x9d\x01\x2a\x55"
     n = 0
-    for ps, pid, pic, tl0, tid, key in itertools.product([0, 1], [0, 5], [None, 0, 127, 128, 32767], [None, 9], [None, (2, 1), (0, 0)], [None, 0, 17]):
+    for ps, pid, pic, tl0, tid, key in itertools.product([0, 1], [0, 5], [None, 0, 127, 128, 32767], [None, 0, 9], [None, (2, 1), (0, 0)], [None, 0, 17]):
         n += 1
         obj = SimpleNamespace(partition_start=ps, partition_id=pid, picture_id=pic, tl0picidx=tl0, tid=tid, keyidx=key)
         desc = f"S={ps} PID={pid} picture_id={pic} tl0picidx={tl0} tid={tid} keyidx={key}"
